@@ -150,6 +150,20 @@ def run(run, binfo):
             e.conf.set_override('remote_content_type',
                                 'application/x-www-form-urlencoded' if form else 'application/json', group='oslo_policy')
             _last_request.clear()
+        if len(pinfo) % 3 == 2 and 'name' in t:
+            # the SAME target and credentials objects were used for an earlier request and updated in place since
+            real_name, real_roles = t['name'], list(cr.get('roles', []))
+            t['name'] = 'earlier'
+            if 'roles' in cr:
+                cr['roles'][:] = ['earlier-role']
+            try:
+                e.enforce(name, t, cr)
+            except Exception:   # noqa
+                pass
+            t['name'] = real_name
+            if 'roles' in cr:
+                cr['roles'][:] = real_roles
+            _last_request.clear()
         res = e.enforce(name, t, cr)
         run.evaluations += 1
         req = dict(_last_request)
